@@ -611,7 +611,7 @@ func runSharded(c *Ctx) {
 				cmd.Stdout = ef
 				cmd.Stderr = ef
 				cmd.Env = append(os.Environ(), ch.Env...)
-				cmd.Env = append(cmd.Env, fmt.Sprintf("GORACE=halt_on_error=0 log_path=%s/race.w%d.%d", c.WorkDir, s, attempt))
+				cmd.Env = append(cmd.Env, fmt.Sprintf("GORACE=halt_on_error=0 exitcode=0 log_path=%s/race.w%d.%d", c.WorkDir, s, attempt))
 				err := cmd.Run()
 				ef.Close()
 				var res workerResult
